@@ -18,6 +18,7 @@ Definition dispatch1 (name : string) (v : val) : val :=
   else if String.eqb name "optimiser" then entry_optimiser v
   else if String.eqb name "pcm" then entry_pcm v
   else if String.eqb name "pcm_seq" then entry_pcm_seq v
+  else if String.eqb name "pcm_opt_seq" then entry_pcm_opt_seq v
   else if String.eqb name "data" then entry_data v
   else if String.eqb name "data_multi" then entry_data_multi v
   else if String.eqb name "signals" then entry_signals v
